@@ -44,6 +44,7 @@ def reservoir_skips(seed, n, N):
         r = rng.randoms(60)
         for i in range(0, 60, 3):
             r1, r2, r3 = r[i:i + 3]
+            if consumed >= N + 5: break      # the real loop has ended by now (StopIteration): later draws are never used
             if r1 == 0 or r2 == 0: skips.append(None); continue
             W = W * r1 ** x
             S = math.floor(math.log(r2, 1 - W))
